@@ -4,6 +4,7 @@ import (
 	"encoding/json"
 	"fmt"
 	"os"
+	"runtime"
 	"sort"
 	"strconv"
 	"strings"
@@ -37,6 +38,7 @@ type Explorer struct {
 	taskIdx  int
 	deadline time.Time
 	timedOut bool
+	memStop  bool
 
 	Execs       int
 	Transitions int
@@ -184,6 +186,17 @@ func (e *Explorer) explore(prefix []int, depth int) {
 		e.timedOut = true
 		return
 	}
+	if e.Execs%512 == 511 {
+		// leaked goroutines of hung executions and the visited-state sets grow; stop
+		// gracefully (exhaustive:false) before the address-space limit kills the worker
+		var ms runtime.MemStats
+		runtime.ReadMemStats(&ms)
+		if ms.HeapInuse+ms.StackInuse > memCap {
+			e.timedOut = true
+			e.memStop = true
+			return
+		}
+	}
 	x := runExec(e.t, e.scn, prefix, e, false)
 	if x.ToolErr != "" {
 		e.ToolErrs = append(e.ToolErrs, fmt.Sprintf("%s (prefix %v)", x.ToolErr, prefix))
@@ -268,6 +281,7 @@ type WorkerResult struct {
 	WallS        float64           `json:"wall_s"`
 	MaxSteps     int               `json:"max_steps"`
 	ExecsByLevel []int             `json:"execs_by_level"`
+	StoppedBy    string            `json:"stopped_by,omitempty"`
 }
 
 // exploreScenario runs the iterative bounded search for one scenario.
@@ -305,6 +319,11 @@ func exploreScenario(t *testing.T, scn *Scenario, bound Cost, shard, nshards int
 		}
 		if e.timedOut {
 			res.Exhaustive = false
+			if e.memStop {
+				res.StoppedBy = "memory cap"
+			} else {
+				res.StoppedBy = "deadline"
+			}
 			break
 		}
 		if len(e.ToolErrs) > 0 {
@@ -332,6 +351,14 @@ func exploreScenario(t *testing.T, scn *Scenario, bound Cost, shard, nshards int
 	res.WallS = time.Since(t0).Seconds()
 	return res
 }
+
+// memCap bounds the heap of one worker (VERIF_MEMCAP in MiB, default 2500).
+var memCap = func() uint64 {
+	if v, err := strconv.Atoi(os.Getenv("VERIF_MEMCAP")); err == nil && v > 0 {
+		return uint64(v) << 20
+	}
+	return 2500 << 20
+}()
 
 // targetProp is the property the check was started for (VERIF_PROP).
 var targetProp = os.Getenv("VERIF_PROP")
